@@ -141,7 +141,7 @@ def random_label_spec(rng, n, labels, typed, explicit=0.2, clone_rate=0.4):
     for lab in labels:
         if rng.random() < explicit:
             # one explicit id per data object (the same id for different data objects is a user error)
-            ids[lab] = rng.choice([2000 + len(ids), "id-%s" % lab, "ü-%s" % lab])
+            ids[lab] = rng.choice([2000 + len(ids), "id-%s" % lab, "ü-%s" % lab] + ([0] if 0 not in ids.values() else []) + ([""] if "" not in ids.values() else []))
 
     def deco(s):
         out = []
